@@ -118,9 +118,6 @@ def _apply_elem_wise_func(inputs: tuple[ArrayOrScalarT, ...],
                 # is implemented properly
                 raise NotImplementedError("broadcasting in function application")
 
-            if ret_dtype is None:
-                ret_dtype = inp.dtype
-
             bindings[f"in_{index}"] = inp
             sym_args.append(
                     prim.Subscript(var(f"in_{index}"),
@@ -129,7 +126,13 @@ def _apply_elem_wise_func(inputs: tuple[ArrayOrScalarT, ...],
             sym_args.append(inp)
 
     assert shape is not None
-    assert ret_dtype is not None
+
+    if ret_dtype is None:
+        # all operands take part in the result type, as in numpy
+        # (python scalars only weakly)
+        ret_dtype = np.result_type(*[
+            inp.dtype if isinstance(inp, Array | np.generic) else inp
+            for inp in inputs])
 
     return cast("ArrayOrScalarT", IndexLambda(
         expr=prim.Call(var(f"pytato.{pt_namespace}{func_name}"),
